@@ -7,6 +7,7 @@
 #
 # @author Davide Brunato <brunato@sissa.it>
 #
+import datetime
 import decimal
 import math
 import urllib.parse
@@ -767,9 +768,11 @@ class XPathToken(Token[ta.XPathTokenType]):
                     _item += timezone.offset
                 elif not isinstance(item, Date):
                     _item += timezone.offset - _tzinfo.offset
-                elif timezone.offset < _tzinfo.offset:
-                    _item -= timezone.offset - _tzinfo.offset
-                    _item -= DayTimeDuration.fromstring('P1D')
+                else:
+                    # The date of the starting instant in the new timezone: whole days only
+                    days = (timezone.offset - _tzinfo.offset) // datetime.timedelta(days=1)
+                    if days:
+                        _item += DayTimeDuration(seconds=days * 86400)
         except OverflowError as err:
             if isinstance(context, XPathSchemaContext):
                 return _item
